@@ -61,6 +61,17 @@ unit('gc2.sweep.main',
               M('next-read-after-free', SWEEP_MAIN_LOOP, SWEEP_MAIN_LOOP.replace('        current = next;\n    }\n', '        current = current->data.next;\n    }\n'), 'dereference|C01 sweep'),
               M('count-not-updated', SWEEP_MAIN_LOOP, SWEEP_MAIN_LOOP.replace('            janet_vm.block_count--;\n', ''), 'C01 sweep')])
 
+# janet_sweep + real janet_deinit_block (composition)
+unit('gc2.sweep.real_deinit',
+     'janet_sweep with the real janet_deinit_block on a heap of an array and a table (with a prototype outside the list): an unmarked block loses its side allocation exactly once, before '
+     'the block itself is freed exactly once; a marked or collection-disabled block and its storage are untouched and stay linked; the prototype of a dead table is never freed',
+     'gc2_sweep_real.c', 'h_sweep_real', bound='heap list array -> table, every flag word; unwind 8 with unwinding assertions', unwind=8,
+     functions=['janet_sweep', 'janet_deinit_block'], replace_calls=['free:sr_free_stub'], assumes=[FREE_STUB, 'weak list and threaded-abstract table are empty'],
+     mutants=[M('block-freed-before-its-storage', '            janet_vm.block_count--;\n            janet_deinit_block(current);\n            if (NULL != previous) {\n                previous->data.next = next;\n            } else {\n                janet_vm.blocks = next;\n            }\n            janet_free(current);',
+                '            janet_vm.block_count--;\n            janet_free(current);\n            janet_deinit_block(current);\n            if (NULL != previous) {\n                previous->data.next = next;\n            } else {\n                janet_vm.blocks = next;\n            }', 'C01 sweep\\+deinit|dereference'),
+              M('table-storage-leaked', '        case JANET_MEMORY_TABLE:\n        case JANET_MEMORY_TABLE_WEAKK:', '        case JANET_MEMORY_TABLE_WEAKK:', 'C01 sweep\\+deinit'),
+              M('prototype-freed', '            janet_free(((JanetTable *) mem)->data);\n', '            janet_free(((JanetTable *) mem)->data);\n            janet_free(((JanetTable *) mem)->proto);\n', 'C01 sweep\\+deinit')])
+
 # ---------------------------------------------------------------------------------------------------------------------
 # janet_sweep: weak heap
 WEAK_ARR = ('                for (uint32_t i = 0; i < (uint32_t) array->count; i++) {\n                    if (!janet_check_liveref(array->data[i])) {\n'
